@@ -3,6 +3,7 @@ package interpreter
 import (
 	"github.com/ah-naf/borno/ast"
 	"github.com/ah-naf/borno/environment"
+	"github.com/ah-naf/borno/utils"
 )
 
 type Callable interface {
@@ -35,6 +36,9 @@ func (f *Function) Call(i *Interpreter, arguments []interface{}) (interface{}, e
 		}
 		if signal.Type != ControlFlowNone {
 			return nil, nil // You can later add support for return values.
+		}
+		if utils.HadRuntimeError {
+			return nil, nil // A runtime error was reported: the body stops here.
 		}
 	}
 	return nil, nil
